@@ -2,18 +2,25 @@
 (* bounded wrapper of Retry for exhaustive checking and behaviour generation: the configuration is chosen in the
    initial state, the per-attempt server scripts when the attempts are created *)
 EXTENDS Retry
-CONSTANTS MaxAtts, Caps, CodeSets, BufLimits, ThrMaxs, Boffs, PBSet, Trigs, FailCodes
+CONSTANTS MaxAtts, Caps, CodeSets, BufLimits, ThrMaxs, Boffs, PBSet, Trigs, FailCodes, HdrActs, UnprocActs
 vars == rvars
 Cfgs == [maxAtt : MaxAtts, cap : Caps, codes : CodeSets, bufLimit : BufLimits, thrMax : ThrMaxs, boff : Boffs]
 Scripts ==
   {[act |-> "OK", code |-> 0, pb |-> "none", trig |-> t] : t \in Trigs}
   \cup {[act |-> "TO", code |-> 14, pb |-> p, trig |-> t] : p \in PBSet, t \in Trigs}
   \cup {[act |-> "TO", code |-> c, pb |-> p, trig |-> t] : c \in FailCodes \ {14}, p \in PBSet \cap {"none", "p7"}, t \in Trigs}
-  \cup {[act |-> a, code |-> 14, pb |-> "none", trig |-> t] : a \in {"HF", "MF"}, t \in Trigs}
-  \cup {[act |-> a, code |-> 14, pb |-> "none", trig |-> "open"] : a \in {"REF", "GOAWAY"}}
+  \cup {[act |-> a, code |-> 14, pb |-> "none", trig |-> t] : a \in HdrActs, t \in Trigs}
+  \cup {[act |-> a, code |-> 14, pb |-> "none", trig |-> "open"] : a \in UnprocActs}
 Init == \E c \in Cfgs : RInitWith(c)
 NewAttemptT(s) == NewAttempt(s)
 RetT == Ret
 BeginT(op, i) == Begin(op, i)
-Next == RetT \/ (\E s \in Scripts : NewAttemptT(s)) \/ (\E op \in {"send", "close", "header", "recv"}, i \in 0..MaxSends : BeginT(op, i))
+ParkT(i) == Park(i)
+UnparkT == Unpark
+UnparkInlineT == UnparkInline
+NewRPCT == NewRPC
+Next == \/ RetT \/ UnparkT \/ UnparkInlineT \/ NewRPCT
+        \/ (\E s \in Scripts : NewAttemptT(s))
+        \/ (\E op \in {"send", "close", "header", "recv"}, i \in 0..MaxSends : BeginT(op, i))
+        \/ (\E i \in 1..MaxSends : ParkT(i))
 ====
